@@ -113,9 +113,6 @@ func accountingErrors(sn *Snap, checkCap bool) []string {
 		if len(rg.Entries) != rg.Count {
 			add("region %s: recorded count %d != number of entries %d", rg.Name, rg.Count, len(rg.Entries))
 		}
-		if rg.Len < 0 {
-			add("region %s: negative size %d", rg.Name, rg.Len)
-		}
 		total += rg.Len
 	}
 	if uint(total) != sn.WeightedSize {
